@@ -22,6 +22,7 @@ const Ticks = 28
 type Real struct {
 	Stage   string     `json:"stage"` // ok | parse | run | 2bm | sim | panic
 	Err     string     `json:"err,omitempty"`
+	CPNames []string   `json:"cpnames,omitempty"`
 	Disasm  [][]string `json:"disasm,omitempty"` // per CP
 	Entry   []string   `json:"entry,omitempty"`  // per CP: body meta "entry" of its final rom section
 	Data    [][]string `json:"data,omitempty"`   // per CP: ROM data words (binary strings)
@@ -131,6 +132,9 @@ func runReal(src string) (res Real) {
 	res.Rsize = int(bm.Rsize)
 	res.NIn, res.NOut = bm.Inputs, bm.Outputs
 	res.Bonds = fmt.Sprint(bm.List_bonds())
+	for i := range bm.Domains {
+		res.CPNames = append(res.CPNames, bi.CPNames[i])
+	}
 	for _, d := range bm.Domains {
 		dis, err := d.Disassembler()
 		if err != nil {
